@@ -502,6 +502,13 @@ void sleep_ns(uint64_t ns) {
   reschedule(self);
 }
 
+void hb_release(const void* tag) {
+  if (__tsan_release) __tsan_release(const_cast<void*>(tag));
+}
+void hb_acquire(const void* tag) {
+  if (__tsan_acquire) __tsan_acquire(const_cast<void*>(tag));
+}
+
 int spawn(const char* role, std::function<void()> fn) {
   SimThread* self = tl_self;
   if (!self) return -1;
